@@ -769,6 +769,7 @@ def value_sub_total_rule(rep, F):
         if not hir_must(body, ev):
             rep.violation("SUB-total", name, "%s: when both values hold assets, some path yields the asset part without computing `%s.sub(%s)`: assets of the minuend that the subtrahend does not cover are dropped whenever the two bundles are incomparable (e.g. inputs {A: 5}, return {B: 5} -> difference None instead of {A: 5})" % (name, names[0], names[1]), {})
     rep.floor("value subtraction functions with a both-assets arm", 1, n)
+    sub_prune_rule(rep, F)
 
 
 def cancel_rule(rep, F, file_prefixes):
@@ -1613,3 +1614,26 @@ def json_filter_rule(rep, F):
             if DROP.search(c.to or ""):
                 rep.violation("JSON-filter", "%s|%s" % (F.key(base), (c.to or "").rsplit("::", 1)[-1]), "%s passes what it writes through `%s`: content the value holds is missing from its JSON form, so from_json(to_json(v)) is a different value with different CBOR bytes (and, for a native script, a different hash)" % (F.key(base), c.to), {"file": fn.get("file"), "line": c.line})
     rep.floor("hand-written JSON writers inspected", 20, n)
+
+
+def sub_prune_rule(rep, F):
+    """SUB-prune: subtraction removes a policy only when nothing of it is left"""
+    rep.rule("SUB-prune", "in MultiAsset::sub every removal of a policy entry (BTreeMap<PolicyID, Assets>::remove) is dominated by a test of the size of that policy's remaining asset map (len() == 0 / is_empty()): assets of the policy that the subtrahend does not mention stay. A removal decided by a flag that only tracks the assets the subtrahend names drops the unmentioned siblings - `inputs - return` then looks asset-free, the collateral gate accepts a return that leaves tokens behind, and change computation loses them")
+    import mustpass as _mp
+    import fieldflow as _ff
+    fid = find_fn(rep, F, "MultiAsset::sub")
+    if not fid:
+        return
+    org = _ff.Origins(F, fid)
+    rm = [c for c in F.calls(fid) if re.search(r"BTreeMap::<K, V, A>::(remove|remove_entry|retain|clear|pop_first|pop_last)$", c.to or "") and re.match(r"\[[^,]*(ScriptHash|PolicyID)", c.info.get("ga") or "")]
+    if not rm:
+        rep.lost("MultiAsset::sub no longer removes emptied policies (re-anchor SUB-prune / ZERO-prune)")
+        return
+    for c in rm:
+        rep.inst("SUB-prune")
+        ok = False
+        for s, edge, d in _mp.dominating_guards(F, fid, c.bb, org):
+            if d["kind"] == "call" and re.search(r"BTreeMap::<K, V, A>::(len|is_empty)$", d["callee"]) and "AssetName" in (d.get("ga") or ""):
+                ok = True
+        if not ok:
+            rep.violation("SUB-prune", "MultiAsset::sub|%s" % (c.to or "").rsplit("::", 1)[-1], "MultiAsset::sub removes a whole policy entry on a path that is not decided by the size of that policy's remaining assets: {P: {A: 5, B: 7}} - {P: {A: 5}} loses B as well, so a collateral return naming only A is accepted although the inputs still hold 7 B, and the change of a transaction that spends part of a policy drops the rest of it", {"line": c.line})
